@@ -121,6 +121,9 @@ def run(chk):
     c03.rule_once(chk)
     c03.rule_truthful(chk)  # 'outcome statuses' of the emitted tree are those of the executed actions
     c03.rule_failfields(chk)
+    from . import c18
+    c18.rule_args(chk)  # log_call's action carries the arguments of the call actually made; a binding failure loses the action
+    c03.rule_builtin_extractors(chk, prefix="C01")  # a failed action whose end message the encoder rejects stays 'started' in the parsed tree
     c06.rule_reserve_and_codec(chk)  # remote sub-tasks continue at the reserved position
     c09.rule_model(chk, prefix="C01")
     c09.rule_orderings(chk, prefix="C01")
